@@ -315,12 +315,9 @@ def _split(xs, k=48):
 def run(pid: str, tier: str, replay: str | None = None) -> int:
     rep = Report(pid, tier, "model_checking")
     thorough = tier == "thorough"
-    if replay:
+    if replay and json.load(open(replay))["vector"].get("kind") == "random-history" and not json.load(open(replay))["vector"].get("fresh_interpreter"):
         vec = json.load(open(replay))["vector"]
-        if vec.get("kind") == "random-history":
-            n, fails, _ = _b3_chunk(([vec["seed"]], vec["length"], True))
-        else:
-            n, fails, _ = 0, [], 0
+        n, fails, _ = _b3_chunk(([vec["seed"]], vec["length"], True))
         for f in fails:
             rep.violation(*f)
         rep.set(states=1, transitions=1, traces_validated_against_impl=n)
